@@ -15,7 +15,42 @@ class C05(OutstationProp):
     def cases(self, rng, tier):
         n = 300 if tier == "quick" else 5000
         out = self.cases_session(rng, n // 2, focus=None)
-        out += self.cases_series(rng, n // 2)
+        out += self.cases_series(rng, n // 4)
+        out += self.cases_unsol_wait(rng, n // 4)
+        return out
+
+    def cases_unsol_wait(self, rng, n):
+        """every executed function code, WITH and WITHOUT a response, repeated while an unsolicited response
+        (null or data) awaits its confirm, and from idle"""
+        out = []
+        for i in range(n):
+            cfg = self.base_cfg(rng, unsol=1)
+            cfg["confirm_ms"] = 5000
+            ops = [("add", "binary", 0, 1)]
+            seq = rng.below(16)
+            data_wait = rng.chance(2, 3)
+            if data_wait:
+                ops.append(("rx", MASTER, "none", hexs(frag(0, FN["confirm"], uns=True))))      # confirm the null response
+                ops.append(("rx", MASTER, "none", hexs(frag(seq, FN["enable"], read_classes((1, 2, 3)))))); seq = (seq + 1) & 15
+                ops.append(("update", "binary", 0, "1", 1, 100))                                # -> data unsolicited, now waiting
+            for _ in range(rng.range(1, 4)):
+                kind = rng.choice(["direct_nr", "freeze_nr", "freeze_clear_nr", "direct", "write", "delay", "record", "select", "cold", "freeze"])
+                if kind in ("direct_nr", "direct", "select"):
+                    req = frag(seq, FN[kind], self.rand_controls(rng))
+                elif kind.startswith("freeze"):
+                    req = frag(seq, FN[kind], bytes([0x14, 0x00, 0x06]))
+                elif kind == "write":
+                    req = frag(seq, FN["write"], write_iin(7, 0))
+                else:
+                    req = frag(seq, FN[kind])
+                ops.append(("rx", MASTER, "none", hexs(req)))
+                if rng.chance(1, 3):
+                    ops.append(("update", "binary", 0, str(rng.below(2)), 1, 200 + rng.below(100)))
+                for _r in range(rng.range(1, 2)):
+                    ops.append(("rx", MASTER, "none", hexs(req)))
+                seq = (seq + 1) & 15
+            sid = "c05_u_%d" % i
+            out.append(Case(sid, script_text(sid, "outstation", cfg, ops), {"kind": "unsol-wait", "cfg": cfg}))
         return out
 
     def cases_series(self, rng, n):
